@@ -5978,7 +5978,13 @@ int32 psX509AuthenticateCert(psPool_t *pool, psX509Cert_t *subjectCert,
     }
     else
     {
-        issuerCert->authStatus = PS_FALSE;
+        /* The issuer is frequently a trust anchor that many sessions (threads)
+           share through one sslKeys_t: do not store to it unless the value
+           really changes, so that concurrent validations only read it. */
+        if (issuerCert->authStatus != PS_FALSE)
+        {
+            issuerCert->authStatus = PS_FALSE;
+        }
         ic = issuerCert; /* Easy case of single subject and single issuer */
         sc = subjectCert;
     }
